@@ -87,6 +87,14 @@ def compare(expected_rows, legend, header, rows, sig, axis):
     if len(rows) != len(expected_rows):
         msgs.append("expected %d rows, observed %d" % (len(expected_rows), len(rows)))
         return msgs
+    # the leading fields IDENTIFY the slice: two different slices never carry the same leading fields (whatever the label's format,
+    # e.g. however weeks are numbered)
+    seen = {}
+    for k, row in enumerate(rows):
+        lead = tuple(str(c).strip() for c in row[:-n])
+        if lead in seen and len(row) >= n + 1:
+            msgs.append("rows %d and %d are different slices with the same leading fields %r" % (seen[lead] + 1, k + 1, list(lead)))
+        seen.setdefault(lead, k)
     for k, (er, row) in enumerate(zip(expected_rows, rows)):
         if len(row) < n + 1:
             msgs.append("row %d has %d cells" % (k + 1, len(row)))
